@@ -842,6 +842,8 @@ class Interp:
         raise Undecided("truth value")
 
     def binop(self, op, a, b):
+        if isinstance(op, (ast.BitOr, ast.BitAnd, ast.BitXor)) and isinstance(a, bool) and isinstance(b, bool):
+            return (a | b) if isinstance(op, ast.BitOr) else ((a & b) if isinstance(op, ast.BitAnd) else (a ^ b))
         if self.externals.get("__elementwise__"):
             from .listnp import T as _T, arith as _arith
             if isinstance(a, _T) or isinstance(b, _T):
@@ -1279,6 +1281,8 @@ class Interp:
                     return self.externals["." + f.attr](recv, xa, xk)
                 except NotHandled:
                     pass  # the model does not apply to this receiver: python's own semantics below
+            if isinstance(recv, Obj) and isinstance(recv.attrs.get(f.attr), PyFunc):
+                return recv.attrs[f.attr].f(self.eval_args(e.args), self.eval_kwargs(e.keywords))  # a modelled callable stored on the object
             if isinstance(recv, Obj):
                 vals = self.eval_args(e.args)
                 try:
@@ -1596,13 +1600,18 @@ class Interp:
             tn = A.dotted(args[1])
             names = [A.dotted(x) for x in args[1].elts] if isinstance(args[1], ast.Tuple) else [tn]
             pyt = {"tuple": tuple, "list": list, "dict": dict, "str": str, "bool": bool, "set": set}
-            pyt.update({"int": int, "float": float})
-            if all(n in pyt for n in names) and v is None:
+            pyt.update({"int": int, "float": float, "bytes": bytes})
+            if all(n in pyt for n in names) and (v is None or isinstance(v, (Obj, PyFunc, Closure))):
                 return False
             if all(n in pyt for n in names) and isinstance(v, (tuple, list, dict, str, bool, set)):
                 return any(isinstance(v, pyt[n]) for n in names)
             if all(n in pyt for n in names) and isinstance(v, Poly) and not ({"int", "float"} & set(names)):
                 return False
+            if "__isinstance__" in self.externals and not any(n in pyt for n in names):
+                try:
+                    return self.externals["__isinstance__"](v, ev(args[1]))
+                except NotHandled:
+                    pass
             raise Undecided("isinstance")
         if name == "filter" and isinstance(f, ast.Name) and len(args) == 2:
             pred, seq = ev(args[0]), ev(args[1])
